@@ -60,6 +60,7 @@ struct Prog {
   std::string why, clause;
   bool any_error = false;      // some call reported an error (a reference that cannot be represented was reported)
   int errors = 0;
+  uint64_t far_off = 0;        // != 0: the user lays the sections out (Section::set_offset): .text at 0, .sec2 at far_off; no flatten()
 
   Prog(int arch_) : arch(arch_) {
     Environment env(arch == AX64 ? Arch::kX64 : arch == AX86 ? Arch::kX86 : Arch::kAArch64);
@@ -137,7 +138,7 @@ struct Prog {
         case K_TBZ: e = aa.tbz(a64::x3, 5, L[l]); break;
         case K_ADR: e = aa.adr(a64::x3, L[l]); break;
         case K_ADRP: e = aa.adrp(a64::x3, L[l]); break;
-        case K_LDR_LIT: e = aa.ldr(a64::x3, a64::ptr(L[l])); break;
+        case K_LDR_LIT: e = aa.ldr(a64::x3, a64::ptr(L[l], int32_t(addend))); break;
         default: break;
       }
     }
@@ -205,15 +206,17 @@ struct Prog {
   // finalise and check every reference
   bool finish(uint64_t base, std::set<std::string>* outcomes) {
     size_t pending_model = 0;
-    if (code.flatten() != Error::kOk) return fail("flatten", "flatten failed");
+    bool far = far_off != 0;
+    if (far) { code.text_section()->set_offset(0); sec2->set_offset(far_off); }
+    else if (code.flatten() != Error::kOk) return fail("flatten", "flatten failed");
     Error re = code.resolve_cross_section_fixups();
     if (re != Error::kOk) { any_error = true; errors++; }
     Error rb = code.relocate_to_base(base);
     bool reloc_failed = rb != Error::kOk;
     if (reloc_failed) { any_error = true; errors++; }
-    size_t cs = code.code_size();
+    size_t cs = far ? 0 : code.code_size();
     std::vector<uint8_t> img(cs + 16, 0xCC);
-    if (code.copy_flattened_data(img.data(), cs, CopySectionFlags::kPadSectionBuffer) != Error::kOk) return fail("copy", "copy_flattened_data failed");
+    if (!far && code.copy_flattened_data(img.data(), cs, CopySectionFlags::kPadSectionBuffer) != Error::kOk) return fail("copy", "copy_flattened_data failed");
     auto sec_off = [&](uint32_t id) { return code.section_by_id(id)->offset(); };
     int checked = 0, unresolved_ok = 0;
     for (auto& r : refs) {
@@ -222,7 +225,8 @@ struct Prog {
       if (!both_bound) { if (!r.is_delta) pending_model++; else if (!reloc_failed) return fail("delta-unbound-accepted", "relocation succeeded although a label of a label-delta is unbound"); continue; }
       uint64_t target = base + sec_off(l.sec) + l.off + uint64_t(r.addend);
       uint64_t site = base + sec_off(r.sec) + r.start;
-      const uint8_t* p = img.data() + sec_off(r.sec) + r.start; size_t n = r.end - r.start;
+      // user layout: the image would span gigabytes, the patched bytes are read from the section buffers instead
+      const uint8_t* p = far ? code.section_by_id(r.sec)->data() + r.start : img.data() + sec_off(r.sec) + r.start; size_t n = r.end - r.start;
       if (r.is_delta) {
         int64_t delta = int64_t((sec_off(l.sec) + l.off) - (sec_off(ls[r.label2].sec) + ls[r.label2].off));
         bool fits_s = r.fsize == 8 || (delta >= -(1ll << (8 * r.fsize - 1)) && delta < (1ll << (8 * r.fsize - 1)));
@@ -280,7 +284,13 @@ struct Prog {
 };
 
 // ---- op alphabet for histories ---------------------------------------------------------------------------
-struct OpDef { int type; int a, b; };   // type 0 ref(kind a, label b), 1 bind(a), 2 pad(a), 3 section(a), 4 align(a)
+struct OpDef { int type; int a, b; };   // type 0 ref(kind a, label b), 1 bind(a), 2 pad(a), 3 section(a), 4 align(a), 5 layout(far index a)
+// section offsets of the user-layout family: both sides of 2^15, 2^20, 2^27 (AArch64 field limits), 2^31, 2^32 (rel32 / adrp / 32-bit fields), 2^33
+static std::vector<uint64_t> far_offsets() {
+  std::vector<uint64_t> v;
+  for (int sh : {15, 20, 27, 31, 32, 33}) for (int d : {-4096, -16, -8, -4, 0, 4, 8, 16, 4096}) v.push_back((1ull << sh) + uint64_t(int64_t(d)));
+  return v;
+}
 static std::vector<OpDef> alphabet(int arch, bool thorough) {
   std::vector<OpDef> v;
   std::vector<int> ks = kinds_of(arch);
@@ -295,12 +305,14 @@ static std::vector<OpDef> alphabet(int arch, bool thorough) {
 static std::string op_str(const OpDef& o) {
   char b[64];
   if (o.type == 0) snprintf(b, sizeof b, "ref(%s,L%d)", kind_name(o.a), o.b); else if (o.type == 1) snprintf(b, sizeof b, "bind(L%d)", o.a);
-  else if (o.type == 2) snprintf(b, sizeof b, "pad(%d)", o.a); else if (o.type == 3) snprintf(b, sizeof b, "section(%d)", o.a); else snprintf(b, sizeof b, "align(%d)", o.a);
+  else if (o.type == 2) snprintf(b, sizeof b, "pad(%d)", o.a); else if (o.type == 3) snprintf(b, sizeof b, "section(%d)", o.a); else if (o.type == 4) snprintf(b, sizeof b, "align(%d)", o.a);
+  else snprintf(b, sizeof b, "layout(.sec2@%#llx)", (unsigned long long)far_offsets()[o.a]);
   return b;
 }
 static bool run_ops(Prog& p, const std::vector<OpDef>& ops) {
   for (auto& o : ops) {
-    bool ok = o.type == 0 ? p.do_ref(o.a, o.b, (o.a == K_MEM || o.a == K_LEA || o.a == K_MEM_IMM8) ? 8 : 0) : o.type == 1 ? p.do_bind(o.a) : o.type == 2 ? p.do_pad(o.a) : o.type == 3 ? p.do_section(o.a) : p.do_align(o.a);
+    if (o.type == 5) { p.far_off = far_offsets()[o.a]; continue; }
+    bool ok = o.type == 0 ? p.do_ref(o.a, o.b, (o.a == K_MEM || o.a == K_LEA || o.a == K_MEM_IMM8 || o.a == K_LDR_LIT) ? 8 : 0) : o.type == 1 ? p.do_bind(o.a) : o.type == 2 ? p.do_pad(o.a) : o.type == 3 ? p.do_section(o.a) : p.do_align(o.a);
     if (!ok) return false;
   }
   return true;
@@ -398,14 +410,29 @@ int main(int argc, char** argv) {
       }
     }
   }
+  // phase 2b: user-layout family - sections placed far apart with Section::set_offset (no memory needed), every kind, reference in
+  // .text to a label in .sec2 (label bound after / before the reference) and reference in .sec2 to a label in .text (negative distance)
+  {
+    std::vector<uint64_t> fo = far_offsets();
+    for (int arch : {AX64, AA64}) for (int k : kinds_of(arch)) for (int fi = 0; fi < (int)fo.size(); fi++) for (int shape = 0; shape < 3; shape++) {
+      if (!c.mine(idx++)) continue;
+      std::vector<OpDef> ops;
+      if (shape == 0) ops = {{0, k, 0}, {3, 1, 0}, {1, 0, 0}, {1, 1, 0}};
+      else if (shape == 1) ops = {{3, 1, 0}, {1, 0, 0}, {1, 1, 0}, {3, 0, 0}, {0, k, 0}};
+      else ops = {{1, 0, 0}, {1, 1, 0}, {3, 1, 0}, {0, k, 0}};
+      ops.push_back({5, fi, 0});
+      run_program(arch, kBase, ops, &outcomes);
+      c.n("user_layout_cases")++;
+    }
+  }
   if (c.thorough() && c.opt("depth").empty()) histories(false, depth);
   for (auto& o : outcomes) c.outcomes.insert(o);
   c.n("distinct_nontrivial") = c.n("evaluations");
   c.n("states") = c.n("evaluations"); c.n("transitions") = c.n("evaluations"); c.n("traces") = c.n("evaluations");
-  c.strs["bound"] = bounds + "boundary family: every pad distance within +-(3 units + 8) of each format's range limit, forward/backward, same/cross section";
+  c.strs["bound"] = bounds + "boundary family: every pad distance within +-(3 units + 8) of each format's range limit, forward/backward, same/cross section; user-layout family: every kind x .sec2 placed at 2^{15,20,27,31,32,33} +- {0,4,8,16,4096} x 3 shapes (x64, a64)";
   c.strs["rule"] = "every sequence of {ref(kind,label), bind(label), pad(n), section(s)} up to the depth is executed on a fresh CodeHolder+Assembler, finalised "
                    "(flatten, resolve_cross_section_fixups, relocate_to_base, copy_flattened_data) and every reference site of the image is decoded by the harness and "
                    "compared with base + section offset + bound offset + addend; each sequence is a distinct program";
-  c.assumptions.push_back("two labels, two sections, one base address (C04 varies the base); displacement kinds limited to the listed instructions; rel32 range limits (2 GiB) not reached");
+  c.assumptions.push_back("two labels, two sections, one base address (C04 varies the base); displacement kinds limited to the listed instructions; rel32 range limits (2 GiB) are reached through user-placed sections only (Section::set_offset), not through 2 GiB of code");
   return vh::finish();
 }
